@@ -78,15 +78,24 @@ def deliver():
     return n
 
 
+def canon_sig(word, probe_key):
+    """signature of a (minimal) failing history, up to the symmetry between the two keys: P/p = full / last frame of the probe key,
+    O/o = of the other key"""
+    m = {'A': 'P', 'a': 'p', 'B': 'O', 'b': 'o'} if probe_key == 'A' else {'B': 'P', 'b': 'p', 'A': 'O', 'a': 'o'}
+    return ''.join(m.get(c, c) for c in word)
+
+
 def search(ctx, protos, depth, per):
     hits = {}
     rng = ctx.rng
-    alphabet = ['A', 'a', 'B', 'b', 'G', 'E', 'D']
+    alphabet = ['A', 'a', 'B', 'b', 'G', 'E', 'R', 'D']
     for p in protos:
         name = p['name']
         al = gen_inputs.param_assignments(p, rng, 4)
         keys = []
         for a in al:
+            if any(a == k[0] for k in keys):
+                continue
             c, e = engine.fresh_encode(p, a, repeat_count=1)
             if c is not None:
                 keys.append((a, [list(f) for f in c.normalized_rlc]))
@@ -97,44 +106,99 @@ def search(ctx, protos, depth, per):
         (aA, fA), (aB, fB) = keys
         words = list(itertools.product(alphabet, repeat=depth))
         rng.shuffle(words)
-        for word in words[:per]:
-            for probe_key, probe in (('B', fB[0]), ('A', fA[0])):
-                inst = p['cls']()
-                vlib.drain_workers()
-                with engine.class_guard(p['cls']):
-                    for op in word:
-                        if op == 'A':
-                            outcome(p, inst, fA[0])
-                        elif op == 'a':
-                            outcome(p, inst, fA[-1])
-                        elif op == 'B':
-                            outcome(p, inst, fB[0])
-                        elif op == 'b':
-                            outcome(p, inst, fB[-1])
-                        elif op == 'G':
-                            outcome(p, inst, gen_inputs.garbage(rng))
-                        elif op == 'E':
-                            try:
+        ecount = [0]
+
+        def run_word(word, probe):
+            inst = p['cls']()
+            vlib.drain_workers()
+            with engine.class_guard(p['cls']):
+                for op in word:
+                    if op == 'A':
+                        outcome(p, inst, fA[0])
+                    elif op == 'a':
+                        outcome(p, inst, fA[-1])
+                    elif op == 'B':
+                        outcome(p, inst, fB[0])
+                    elif op == 'b':
+                        outcome(p, inst, fB[-1])
+                    elif op == 'G':
+                        outcome(p, inst, garbage)
+                    elif op in ('E', 'R'):
+                        try:
+                            if op == 'R' and 'repeat_count' in p['enc_args']:
+                                inst.encode(**aA, repeat_count=2)
+                            else:
                                 inst.encode(**aA)
-                            except Exception:  # noqa
-                                pass
-                        elif op == 'D':
-                            deliver()
-                    got = outcome(p, inst, probe)
-                    vlib.drain_workers()
-                    want = outcome(p, p['cls'](), probe)
-                    vlib.drain_workers()
+                        except Exception:  # noqa
+                            pass
+                    elif op == 'D':
+                        deliver()
+                got = outcome(p, inst, probe)
+                vlib.drain_workers()
+                want = outcome(p, p['cls'](), probe)
+                vlib.drain_workers()
+            return got, want
+
+        def differs(got, want):
+            return got != want and not (got[0] == 'code' and want[0] == 'code' and got[1:] == want[1:])
+
+        found = 0
+        for word in words[:per]:
+            if found >= 4:
+                break
+            garbage = gen_inputs.garbage(rng)
+            for probe_key, probe in (('B', fB[0]), ('A', fA[0])):
+                got, want = run_word(word, probe)
                 ctx.count_eval(key=(name, word, probe_key))
-                if got != want and not (got[0] == 'code' and want[0] == 'code' and got[1:] == want[1:]):
+                if differs(got, want):
+                    # shrink the history: drop operations as long as the probe still decodes differently
+                    w = list(word)
+                    i = 0
+                    while i < len(w):
+                        w2 = w[:i] + w[i + 1:]
+                        g2, t2 = run_word(w2, probe)
+                        if differs(g2, t2):
+                            w, got, want = w2, g2, t2
+                        else:
+                            i += 1
                     hits[name] = True
-                    ctx.report(name, 'full frame decoded differently after a history', dict(word=''.join(word), held_same_key=(word[-1].upper() == probe_key)),
-                               dict(protocol=name, keyA=aA, keyB=aB, word=list(word), probe=probe_key, after_history=list(got), fresh=list(want)))
-                    break
-            else:
-                continue
-            break
-        else:
+                    found += 1
+                    if len(w) <= 2:
+                        continue
+                    ctx.report(name, 'full frame decoded differently after a history',
+                               dict(word=''.join(word), held_same_key=(word[-1].upper() == probe_key), sig=canon_sig(w, probe_key)),
+                               dict(protocol=name, keyA=aA, keyB=aB, word=list(word), minimal_word=w, garbage=garbage, probe=probe_key,
+                                    after_history=list(got), fresh=list(want)))
+        if not found:
             ctx.passed(name, dict(word='', held_same_key=False))
+        # encoding on the instance (every repeat count the encoder accepts) must not change what it decodes afterwards
+        garbage = []
+        for w in (['E'], ['R'], ['A', 'E'], ['A', 'R'], ['R', 'R']):
+            for probe_key, probe in (('B', fB[0]), ('A', fA[0])):
+                got, want = run_word(w, probe)
+                ctx.count_eval(key=(name, tuple(w), probe_key, 'enc'))
+                if differs(got, want):
+                    found += 1
+        # a decoder that depends on its history: enumerate ALL histories of up to two operations and report every minimal failing
+        # one, so that the set of signatures of a recorded finding does not depend on the random words of this run
+        if found:
+            garbage = [9000, -4500, 560, -560, 560, -1690, 560, -40000]
+            failing = set()
+            for n in (1, 2):
+                for w in itertools.product(alphabet, repeat=n):
+                    for probe_key, probe in (('B', fB[0]), ('A', fA[0])):
+                        cs = canon_sig(w, probe_key)
+                        if any(canon_sig(w[:i] + w[i + 1:], probe_key) in failing for i in range(len(w))) or cs in failing:
+                            continue
+                        got, want = run_word(list(w), probe)
+                        ctx.count_eval(key=(name, w, probe_key, 'all'))
+                        if differs(got, want):
+                            failing.add(cs)
+                            hits[name] = True
+                            ctx.report(name, 'full frame decoded differently after a history',
+                                       dict(word=''.join(w), held_same_key=(w[-1].upper() == probe_key), sig=cs),
+                                       dict(protocol=name, keyA=aA, keyB=aB, word=list(w), minimal_word=list(w), garbage=garbage,
+                                            probe=probe_key, after_history=list(got), fresh=list(want)))
     return hits
 
 
@@ -184,12 +248,70 @@ def near_key_search(ctx, protos, hits):
                     vlib.drain_workers()
                 if got != want and not (got[0] == 'code' and want[0] == 'code' and got[1:] == want[1:]):
                     hits[name] = True
-                    ctx.report(name, 'full frame decoded differently after a history', dict(word='A', held_same_key=False),
+                    ctx.report(name, 'full frame decoded differently after a history', dict(word='A', held_same_key=False, sig='near-key'),
                                dict(protocol=name, keyA=base, keyB=nb, word=['A'], probe='B', after_history=list(got), fresh=list(want)))
                     break
             else:
                 continue
             break
+
+
+def delivery_search(ctx, protos, hits):
+    """History = full frame of key A, full frame of a neighbouring key B (one bit of one parameter differs); then B's repeat
+    frame, once with the release notifications queued so far still pending and once after they have been delivered: the result
+    must be the same (and a further full frame of B too)."""
+    for p in protos:
+        name = p['name']
+        eps = p['encode_parameters']
+        if not eps or 'repeat_count' not in p['enc_args']:
+            continue
+        base = {a: (lo + hi) // 2 for a, lo, hi in eps}
+        cA, e = engine.fresh_encode(p, base, repeat_count=0)
+        if cA is None:
+            continue
+        fA = list(cA.normalized_rlc[0])
+        variants = []
+        for a, lo, hi in eps:
+            b = 1
+            while b <= hi:
+                v = base[a] ^ b
+                if lo <= v <= hi:
+                    nb = dict(base)
+                    nb[a] = v
+                    variants.append((a, nb))
+                b <<= 1
+        done = False
+        for pname, nb in variants[:40]:
+            cB, e = engine.fresh_encode(p, nb, repeat_count=1)
+            if cB is None or len(cB.normalized_rlc) < 2:
+                continue
+            fB, rB = list(cB.normalized_rlc[0]), list(cB.normalized_rlc[-1])
+            outs = []
+            for deliver_first in (False, True):
+                with engine.class_guard(p['cls']):
+                    vlib.drain_workers()
+                    inst = p['cls']()
+                    outcome(p, inst, fA)
+                    outcome(p, inst, fB)
+                    if deliver_first:
+                        deliver()
+                    o1 = outcome(p, inst, rB)
+                    if deliver_first:
+                        deliver()
+                    o2 = outcome(p, inst, fB)
+                    vlib.drain_workers()
+                outs.append((o1, o2))
+            ctx.count_eval(key=(name, 'delivery', pname, tuple(sorted(nb.items()))))
+            if outs[0] != outs[1]:
+                hits[name] = True
+                ctx.report(name, 'decode result depends on whether release notifications have been delivered',
+                           dict(parameter=pname, sig='differs in ' + pname),
+                           dict(protocol=name, keyA=base, keyB=nb, history=['full A', 'full B', '(deliver)', 'repeat B', '(deliver)', 'full B'],
+                                pending=[list(map(str, o)) for o in outs[0]], delivered=[list(map(str, o)) for o in outs[1]]))
+                done = True
+                break
+        if done:
+            continue
 
 
 def run(ctx):
@@ -198,6 +320,7 @@ def run(ctx):
     protos = [e['p'] for e in info.values()]
     hits = search(ctx, protos, 3 if ctx.tier == 'quick' else 4, 12 if ctx.tier == 'quick' else 300)
     near_key_search(ctx, protos, hits)
+    delivery_search(ctx, protos, hits)
     results = perproto.run_obligations(ctx, 'C07', info, gen_obligation, timeout=120)
     vlib.check_props_file(ctx, 'C07')
     perproto.settle(ctx, 'C07', results, hits)
